@@ -159,13 +159,15 @@ P_Send(sid, dst, len, res) ==
     LET o   == Origin(sid, dst)
         cps == {c \in Copies(sid, dst) : ~NoCopy(sid, dst, c)}
         cm  == {c \in cps : MustCopy(sid, dst, res, c)}
-        e0  == {r \in Live : \E c \in cps :
-                    /\ c[1] = socks[r].h /\ c[2] = socks[r].p
-                    /\ KindOk(r, c[3]) /\ PeerOk(r, o)
-                    /\ (dst.k = "mc" => dst.g \in socks[r].grp)}
+        \* sockets bound (with a fitting bind address) where a copy goes, and of
+        \* those the ones whose peer filter / whose membership admits it now
+        a0  == {r \in Live : \E c \in cps : c[1] = socks[r].h /\ c[2] = socks[r].p /\ KindOk(r, c[3])}
+        p0  == {r \in a0 : PeerOk(r, o)}
+        g0  == {r \in a0 : dst.k = "mc" => dst.g \in socks[r].grp}
     IN
     /\ sends' = Append(sends, [sid |-> sid, o |-> o, dst |-> dst, len |-> len, res |-> res,
-                               cm |-> cm, cy |-> cps \ cm, e0 |-> e0, ns |-> Len(socks)])
+                               cm |-> cm, cy |-> cps \ cm, p0 |-> p0, g0 |-> g0, e0 |-> p0 \cap g0,
+                               ns |-> Len(socks)])
     /\ UNCHANGED <<socks, arrd, pm, py, rbuf, got, viol>>
 
 \* A copy of datagram id reached host t addressed to port p, destination ip kind dk.
@@ -186,11 +188,19 @@ ArriveClass(id, t, p, dk) ==
     ELSE IF LiveAt(t, p) = {} THEN "unbound"
     ELSE LET s   == ArriveSock(t, p)
              old == s <= m.ns                      \* the socket existed when the datagram was sent
-             e0  == s \in m.e0
-             e1  == /\ KindOk(s, dk) /\ PeerOk(s, m.o)
-                    /\ (m.dst.k = "mc" /\ old => m.dst.g \in socks[s].grp)
-             cls == IF e0 /\ e1 /\ c \in m.cm THEN "must"
-                    ELSE IF e0 \/ e1 THEN "may" ELSE "no"
+             \* each condition is judged on its own: required only if it holds when the
+             \* datagram is sent and when it arrives, excluded only if it holds at neither
+             \* instant (the bind address of a socket never changes; membership is not
+             \* asked of a socket bound after the send at an address that was targeted)
+             isMc    == m.dst.k = "mc"
+             peer1   == PeerOk(s, m.o)
+             mem1    == m.dst.g \in socks[s].grp
+             peerAll == peer1 /\ s \in m.p0
+             peerAny == peer1 \/ s \in m.p0
+             memAll  == ~isMc \/ (mem1 /\ s \in m.g0)
+             memAny  == ~isMc \/ mem1 \/ s \in m.g0 \/ ~old
+             cls == IF ~KindOk(s, dk) \/ ~peerAny \/ ~memAny THEN "no"
+                    ELSE IF old /\ peerAll /\ memAll /\ c \in m.cm THEN "must" ELSE "may"
              \* occupancy of the receive queue: readable() *may* have moved one
              \* datagram out of it (the documentation allows false positives)
              b     == IF rbuf[s] THEN 1 ELSE 0
